@@ -28,7 +28,7 @@ func VerifHarness_C17_CustomFunctions() {
 	_, exists := t[name]
 	var fn any
 	goodSig := false
-	kind := verifrt.Choose("fn", 10)
+	kind := verifrt.Choose("fn", 11)
 	tag := verifrt.NondetInt32("tag")
 	var seenIn system.Collection
 	var seenArg system.String
@@ -58,6 +58,8 @@ func VerifHarness_C17_CustomFunctions() {
 	case 8: // the second result is a concrete type that implements error, not the error interface: a nil *verifErrT
 		// returned on success would turn into a non-nil error
 		fn = func(in system.Collection, s system.String) (system.Collection, *verifErrT) { return in, nil }
+	case 10: // a parameter of a type that no item has: the function could be registered but every call would fail
+		fn = func(in system.Collection, n int) (system.Collection, error) { return in, nil }
 	case 9: // the second result is not an error at all
 		fn = func(in system.Collection, s system.String) (system.Collection, bool) { return in, true }
 	default: // not a function
@@ -82,10 +84,11 @@ func VerifHarness_C17_CustomFunctions() {
 	f := t[name]
 	verifrt.Assert(f.MinArity == 1 && f.MaxArity == 1, "arity-is-the-parameter-count-minus-the-input")
 	input := system.Collection{system.Integer(verifrt.NondetInt32("in"))}
-	// argument forms: 0 a String (well-typed), 1 an Integer (wrong type), 2 empty, 3 two items, 4 no argument at all
+	// argument forms: 0 a String (well-typed), 1 an Integer (wrong type), 2 empty, 3 two items, 4 no argument at all,
+	// 5 a nil item (what another custom function may return: collections are passed through unchanged)
 	var args []expr.Expression
 	argS := system.String(verifrt.NondetString("arg", 2))
-	form := verifrt.Choose("argForm", 5)
+	form := verifrt.Choose("argForm", 6)
 	switch form {
 	case 0:
 		args = []expr.Expression{&expr.LiteralExpression{Literal: argS}}
@@ -95,6 +98,8 @@ func VerifHarness_C17_CustomFunctions() {
 		args = []expr.Expression{&expr.LiteralExpression{}}
 	case 3:
 		args = []expr.Expression{verifConst(system.Collection{argS, argS})}
+	case 5:
+		args = []expr.Expression{verifConst(system.Collection{nil})}
 	}
 	res, cerr := f.Func(verifCtx(), input, args...)
 	switch {
